@@ -9,7 +9,7 @@ for d in selftest/engine/*/; do
   T=$(mktemp -d /var/tmp/engst-XXXXXX)
   cp "$d/zz_stable.go.txt" "$T/zz_stable.go"
   echo "{\"/repo/pkg/common/resources/zz_stable.go\":\"$T/zz_stable.go\"}" > "$T/ov.json"
-  out=$(./bin/govc check -prop C19 -func zz -contracts "/verif/$d/contracts,/verif/contracts" -overlay "$T/ov.json" -timeout 20 -evidence "$T/ev.json" -workdir "$T/w" -replays "$T" 2>&1)
+  out=$(${GOVC:-./bin/govc} check -prop C19 -func zz -contracts "/verif/$d/contracts,/verif/contracts" -overlay "$T/ov.json" -timeout 20 -evidence "$T/ev.json" -workdir "$T/w" -replays "$T" 2>&1)
   got=$(echo "$out" | grep -oE "FAILED [^ ]+" | awk '{print $2}' | sort)
   want=$(grep -v '^#' "$d/expect.txt" | sort)
   if [ "$got" == "$want" ]; then echo "OK   $n"; else echo "BAD  $n"; echo "  want: $want"; echo "  got:  $got"; rc=1; fi
